@@ -329,6 +329,24 @@ impl Exec {
             }
             // ---- writes
             "w" | "aw" => self.write_op(t),
+            // fixed call sequences through the api crate's closure-taking container writers: every write
+            // status as the api crate reports it (its own mapping of the provider's numeric codes)
+            "awseq" => {
+                use api::write::Error as E;
+                let k: usize = t.get(1)?.parse().ok()?;
+                let mut c = api::Context;
+                let r: Result<(), E> = match k {
+                    0 => c.write_array(|c| { let _ = c.write_object(|_| Err(E::IoError), 1); Ok(()) }, 1),
+                    1 => c.write_object(|c| { c.write_utf8_str("k")?; let _ = c.write_array(|_| Err(E::IoError), 1); Ok(()) }, 1),
+                    2 => c.write_object(|c| c.write_bool(true), 1),
+                    3 => c.write_object(|_| Ok(()), 1),
+                    4 => c.write_array(|_| Ok(()), 1),
+                    5 => { let _ = c.write_bool(true); c.write_bool(false) }
+                    6 => { let _ = c.write_array(|_| Err(E::IoError), 1); c.finalize_output_and_return().map(|_| ()) }
+                    _ => return None,
+                };
+                Some(wr(r))
+            }
             "fin" => {
                 let (st, bytes) =
                     prov::write::shopify_function_output_finalize_and_return_msgpack_bytes();
